@@ -25,7 +25,9 @@ META = {
         'from the criterion of the call that happened to fill it; (nomut) the '
         'lookup and criteria cores and their argument parsers never write in '
         'place to the arrays they receive (text keys are upper-cased on '
-        'copies).'),
+        'copies); (guard) no bounds test on a table is separated from the '
+        'indexing it protects by a transposition or other re-binding of the '
+        'table.'),
     'not_decided': (
         'Positions returned for all key vectors, wildcard translation, INDEX '
         'addressing - value-level case analysis.'),
@@ -370,6 +372,17 @@ def rule_typed(ctx):
     return rr
 
 
+def _guards(ctx, regs):
+    from .common import rule_stale_guard, reg_targets
+    funcs = []
+    for reg in regs:
+        fs, _ = reg_targets(ctx, reg)
+        funcs += [f for f in fs if f not in funcs]
+    funcs = [f for f in ctx.cg.reachable(funcs).values()]
+    funcs = sorted({f[0].fq: f[0] for f in funcs}.values(), key=lambda f: f.fq)
+    return rule_stale_guard(ctx, 'C19', 'C19.guard', funcs)
+
+
 def run(ctx):
     from .c02 import rule_rank
     r = rule_rank(ctx)
@@ -389,4 +402,5 @@ def run(ctx):
     return [rule_core(ctx), rule_typed(ctx), r,
             rule_memo(ctx, 'C19', 'C19.memo', regs),
             rule_slotmemo(ctx, 'C19', 'C19.slotmemo', fm),
-            nomut_for(ctx, 'C19', 'C19.nomut', regs, floor=20)]
+            nomut_for(ctx, 'C19', 'C19.nomut', regs, floor=20),
+            _guards(ctx, regs)]
